@@ -62,7 +62,9 @@ Init ==
   /\ path = <<>>
 
 \* what the kernel answers once the write credit is exhausted
-WErrs(e) == {EAGAIN} \cup InjErr \cup (IF PeerClosed(e) /\ PipeErr THEN {EPIPE} ELSE {})
+\* (AF_UNIX: once the peer is gone every write is answered EPIPE)
+WErrs(e) == IF Seq1(TP) /\ PeerClosed(e) THEN {EPIPE}
+            ELSE {EAGAIN} \cup InjErr \cup (IF PeerClosed(e) /\ PipeErr THEN {EPIPE} ELSE {})
 \* what the kernel answers when a read finds nothing (more)
 RTerm(e, rc) == IF rc < Avail(e) THEN {EAGAIN} \cup (InjErr \ {EPIPE})
                 ELSE IF PeerClosed(e) THEN {EOFMARK} ELSE {EAGAIN} \cup (InjErr \ {EPIPE})
@@ -166,7 +168,7 @@ RawFrame(h, k) ==
 WNeed(e, len) == (IF eps[e].sbuf # 0 THEN HdrLen + eps[e].sbuf - eps[e].sent ELSE 0) + (IF len > 0 THEN HdrLen + len ELSE 0)
 \* credits worth distinguishing: every cut inside a header, just before / at the end, nothing, everything
 Cuts(n) == {c \in 0..n : c <= HdrLen + 1 \/ c >= n - 1 \/ c \in {HdrLen + MaxMsg - 1, HdrLen + MaxMsg, HdrLen + MaxMsg + 1}}
-WCredits(e, len) == IF Seq1(TP) THEN {0, 1} ELSE IF Stream(TP) THEN 0..len ELSE Cuts(WNeed(e, len))
+WCredits(e, len) == IF Seq1(TP) THEN (IF PeerClosed(e) THEN {0} ELSE {0, 1}) ELSE IF Stream(TP) THEN 0..len ELSE Cuts(WNeed(e, len))
 RNeed(e, cap) == IF Seq1(TP) THEN 1
                  ELSE IF Stream(TP) THEN cap
                  ELSE (IF eps[e].rbuf < HdrLen THEN HdrLen - eps[e].rbuf ELSE 0) +
